@@ -140,7 +140,7 @@ def run_shard(shard, tier, h, res, known):
                         probs.append(("rule", want, out[(mn, idx)]))
             for clause, exp, obs in probs:
                 res.fail({"clause": clause, "family": "range", "config": conf, "listing": [[a, m, o] for a, m, o in att],
-                          "text": text, "expected": exp, "observed": obs, "size": len(att) * 10}, known)
+                          "text": text, "specs": specs, "expected": exp, "observed": obs, "size": len(att) * 10}, known)
         if len(res.samples) < 1:
             res.samples.append({"config": conf, "alphabet": [[a[0], a[1]] for a in A][:8]})
 
@@ -160,6 +160,23 @@ def replay(case, h):
         except Exception as e:
             return True, repr(e)
     path = h.listing_file(case["text"])
-    plain = rm.decode(h.match(h.mop(make_rule_doc(["zzzznomatch"])), path, ret="stream"))
-    tagged = rm.decode(h.match(h.mop(make_rule_doc(["zzzznomatch"], conf)), path, ret="stream"))
-    return True, f"plain={plain} tagged={tagged} (compare with clause {case['clause']}: expected {case['expected']})"
+    specs = case["specs"]
+    try:
+        plain = rm.decode(h.match(h.mop(make_rule_doc(["zzzznomatch"])), path, ret="stream"))
+        tagged = rm.decode(h.match(h.mop(make_rule_doc(["zzzznomatch"], conf)), path, ret="stream"))
+        rules = {mn: h.match(h.mop(make_rule_doc([{mn: ["valid_addr"]}], conf)), path, only_addr=True) for mn in ("call", "jmp")}
+    except Exception as e:
+        return True, repr(e)
+    bad = []
+    if [(a, m) for a, m, _ in tagged] != [(a, m) for a, m, _ in plain]:
+        bad.append("sequence")
+    else:
+        for sp_, t, p in zip(specs, tagged, plain):
+            if sp_ == "tag" and t[2] != ("valid_addr",):
+                bad.append("must-tag")
+            elif sp_ == "keep" and t[2] != p[2]:
+                bad.append("must-not-tag")
+        for mn in ("call", "jmp"):
+            if rules[mn] != [a for (a, m_, _), s_ in zip(plain, specs) if m_ == mn and s_ == "tag"]:
+                bad.append("rule")
+    return bool(bad), f"failing clauses {bad}; plain={plain} tagged={tagged} rules={rules}"
